@@ -57,6 +57,7 @@ pub(crate) fn parse_from_f32(n: f32) -> BigDecimal {
     let bits = n.to_bits();
 
     if (bits << 1) == 0 {
+        verif_probe!(FromF_Zero);
         return Zero::zero();
     }
 
@@ -67,10 +68,12 @@ pub(crate) fn parse_from_f32(n: f32) -> BigDecimal {
     let scale;
     match pow.cmp(&0) {
         Ordering::Equal => {
+            verif_probe!(FromF_PowZero);
             result = BigUint::from(frac);
             scale = 0;
         }
         Ordering::Less => {
+            verif_probe!(FromF_PowNeg);
             let trailing_zeros = cmp::min(frac.trailing_zeros(), -pow as u32);
 
             let reduced_frac = frac >> trailing_zeros;
@@ -83,6 +86,7 @@ pub(crate) fn parse_from_f32(n: f32) -> BigDecimal {
             scale = -reduced_pow;
         }
         Ordering::Greater => {
+            verif_probe!(FromF_PowPos);
             let shift = BigUint::from(2u8).pow(pow.abs() as u32);
 
             result = frac * shift;
@@ -99,6 +103,7 @@ pub(crate) fn parse_from_f32(n: f32) -> BigDecimal {
 /// Create bigdecimal from subnormal f32
 pub(crate) fn parse_from_f32_subnormal(n: f32) -> BigDecimal {
     debug_assert_eq!(n.classify(), FpCategory::Subnormal);
+    verif_probe!(FromF_Subnormal);
     let bits = n.to_bits();
 
     let sign_bit = bits >> 31;
@@ -170,6 +175,7 @@ fn split_f64_into_parts(f: f64) -> (u64, i64, Sign) {
 /// Create bigdecimal from subnormal f64
 pub(crate) fn parse_from_f64_subnormal(n: f64) -> BigDecimal {
     debug_assert_eq!(n.classify(), FpCategory::Subnormal);
+    verif_probe!(FromF_Subnormal);
     let bits = n.to_bits();
 
     let sign_bit = bits >> 63;
@@ -213,6 +219,7 @@ pub(crate) fn parse_from_f64(n: f64) -> BigDecimal {
 
     // shift right by 1 bit to handle -0.0
     if (bits << 1) == 0 {
+        verif_probe!(FromF_Zero);
         return Zero::zero();
     }
 
@@ -224,10 +231,12 @@ pub(crate) fn parse_from_f64(n: f64) -> BigDecimal {
     let scale;
     match pow.cmp(&0) {
         Ordering::Equal => {
+            verif_probe!(FromF_PowZero);
             result = BigUint::from(frac);
             scale = 0;
         }
         Ordering::Less => {
+            verif_probe!(FromF_PowNeg);
             let trailing_zeros = cmp::min(frac.trailing_zeros(), -pow as u32);
 
             let reduced_frac = frac >> trailing_zeros;
@@ -240,6 +249,7 @@ pub(crate) fn parse_from_f64(n: f64) -> BigDecimal {
             scale = -reduced_pow;
         }
         Ordering::Greater => {
+            verif_probe!(FromF_PowPos);
             let shift = BigUint::from(2u8).pow(pow as u32);
             result = frac * shift;
             scale = 0;
